@@ -165,12 +165,17 @@ def closure_spec(F, clo_term, parent_spec_of):
         return None
     pr = P.Prov(fn)
     ret = P.strip(pr.local(0), calls=False)
-    if not (ret[0] == "call" and ret[1].rsplit("::", 1)[-1] == "map" and len(ret[2]) == 2):
+    bare = False
+    if ret[0] == "call" and ret[1].rsplit("::", 1)[-1] == "map" and len(ret[2]) == 2:
+        src = P.strip(ret[2][0], calls=False)
+        if not (src[0] == "call" and src[1] == f"<{tokmodel.RANK_PAIR} as std::iter::IntoIterator>::into_iter"):
+            return None
+        rp = P.strip(src[2][0])
+    elif fn.local_ty(0) == tokmodel.RANK_PAIR:
+        # |r| RankPair::V(.., r): flat_map iterates the pair itself; the weight is attached by a `.map(|cp| (cp, w))` that follows
+        rp, bare = P.strip(ret), True
+    else:
         return None
-    src = P.strip(ret[2][0], calls=False)
-    if not (src[0] == "call" and src[1] == f"<{tokmodel.RANK_PAIR} as std::iter::IntoIterator>::into_iter"):
-        return None
-    rp = P.strip(src[2][0])
 
     def cap(t):
         s = P.strip(t)
@@ -217,6 +222,8 @@ def closure_spec(F, clo_term, parent_spec_of):
         ops = [cap(o) for o in rp[2]]
     else:
         return None
+    if bare:
+        return variant, ops, ("follows",)
     inner = ret[2][1]
     prob = None
     if inner[0] == "agg" and inner[1].startswith("closure:"):
@@ -289,6 +296,21 @@ def rule_expansion(ctx, F):
         if cs is None:
             raise Unrecognised(rule, "flat_map closure is not |r| RankPair::V(.., r).into_iter().map(|cp| (cp, weight))", it.path, it.blocks[bi]["line"])
         variant, ops, prob = cs
+        if prob == ("follows",):
+            # `.flat_map(|r| pair(r)).map(|cp| (cp, weight))`: the only consumer of the flat_map result is that map
+            prob = None
+            me = pr.call_term(t, bi)
+            for b2, t2 in it.calls():
+                if b2 in it.cfg.reachable and t2["callee"].get("name") == "map" and len(t2["args"]) == 2 and \
+                        P.strip(pr.operand(t2["args"][0]), calls=False) == me:
+                    mc = P.strip(pr.operand(t2["args"][1]), calls=False)
+                    if mc[0] == "agg" and mc[1].startswith("closure:") and mc[1][len("closure:"):] in F.fns:
+                        mfn = F.fns[mc[1][len("closure:"):]]
+                        mt = P.Prov(mfn).local(0)
+                        if mt[0] == "agg" and mt[1] == "tuple" and len(mt[2]) == 2 and P.strip(mt[2][0]) == ("param", 2):
+                            w_ = P.strip(mt[2][1])
+                            if w_[0] == "field" and P.strip(w_[1]) == ("param", 1):
+                                prob = spec(mc[2][w_[2]])
         cands.append((it.blocks[bi]["line"], ctor, a, b, variant, ops, prob))
     # the same expansion written as loops: for r in RankRange::ctor(a, b) { for cp in RankPair::V(.., r) { v.push((cp, w)) } }
     from rules import runpass
